@@ -35,6 +35,12 @@ TRUSTED = [
     "len(self.cloned_nodes) > 0, worker.id in self.params['name'], self.objects, the two first-character reads are "
     "total - an empty mode raises IndexError in the real code); the pinned loop over the involved workers (text in "
     "harness/pygen.py CLEAN_DOOR_BLOCK, mirrored by hand in Props.C05.cleanDoor)",
+    "harness/pygen.py + harness/pygen_pxloc.py regenerate I2N/Extracted/GenInvolved.lean on every run from the source of "
+    "the properties TestNode.shared_involved_workers and shared_results (nothing pinned); involved_matches_source (for "
+    "every division of the workers into swarms that lists them in exported order) and sharedResults_matches_source prove "
+    "the model's involved / sharedResults equal to them.  Trusted: the translator; the atoms (<register>.get_workers() = "
+    "regWorkers <register> none, a worker's id stands for the worker, TestSwarm.run_swarms = the swarms in dictionary "
+    "order each standing for the list of its workers, self.results / self.bridged_nodes / m.results)",
 ]
 CORPUS = os.path.join(vlib.VERIF, "corpus", PROP)
 
@@ -47,7 +53,14 @@ def extract(ctx):
     if pygen.extract_clean(ctx):
         ctx.notes.append("I2N/Extracted/GenClean.lean changed: the source of TestNode.default_clean_decision differs from "
                          "the one the committed file was generated from (cleanDecision_matches_source is re-checked)")
-    ctx.extra["regenerated"] = "lean/I2N/Extracted/GenClean.lean (TestNode.default_clean_decision via harness/pygen.py)"
+    import pygen_pxloc
+    if pygen_pxloc.extract_involved(ctx):
+        ctx.notes.append("I2N/Extracted/GenInvolved.lean changed: the source of TestNode.shared_involved_workers / "
+                         "shared_results differs from the one the committed file was generated from "
+                         "(involved_matches_source, sharedResults_matches_source are re-checked)")
+    ctx.extra["regenerated"] = ("lean/I2N/Extracted/GenClean.lean (TestNode.default_clean_decision via harness/pygen.py); "
+                                "lean/I2N/Extracted/GenInvolved.lean (TestNode.shared_involved_workers, "
+                                "shared_results via harness/pygen_pxloc.py)")
 
 
 def wellformed(lines):
